@@ -774,6 +774,11 @@ func (p *Parser) doHeredocs() {
 	p.rune() // consume '\n', since we know p.tok == _Newl
 	old := p.quote
 	p.heredocs = p.heredocs[:p.buriedHdocs]
+	// The comments accumulated so far were written before the bodies, such as
+	// in "foo <<EOF; bar # comment". Keep them for the statements out here;
+	// a statement in a command substitution inside a body must not take them.
+	coms := p.accComs
+	p.accComs = nil
 	for i, r := range hdocs {
 		if p.err != nil {
 			break
@@ -807,6 +812,7 @@ func (p *Parser) doHeredocs() {
 		p.hdocStops = p.hdocStops[:len(p.hdocStops)-1]
 	}
 	p.quote = old
+	p.accComs = append(coms, p.accComs...)
 }
 
 func (p *Parser) got(tok token) bool {
